@@ -3,7 +3,7 @@
 M  MC_JsonDict "model": ToJ / FromJ of spec/JsonDict.tla over all JSON-able combinator terms of depth <= 1 (quick) / 3 (thorough), model
    structs (upper-cased keys, tuple structs, opt2 wire fields, block / proof-of-space views): FromJ inverts ToJ,
    every applicable single-position corruption is rejected, integer JSON is accepted exactly in range.
-G  MC_JsonDict "gen": the schema + JSON views extracted from the current sources; for every registry type and four
+G  MC_JsonDict "gen": the schema + JSON views extracted from the current sources; for every registry type and three (quick) / four
    canonical values TLC enumerates every applicable (path, corruption class) and emits them as replay cases.
 R+T the pyo3-embedded harness (harness/vhpy) converts values of every exported class (TLC cases, schema-generated
    boundary values, `arbitrary` values) with to_json_dict / from_json_dict, applies the corruptions (TLC's and its own
@@ -418,8 +418,8 @@ def run(tier):
         args += ["--gen", 2, "--arb", 2, "--own", 16, "--max-bytes", 12000]
         nshards = 6
     else:
-        args += ["--gen", 16, "--arb", 16, "--own", 64, "--max-bytes", 20000]
-        nshards = 36
+        args += ["--gen", 64, "--arb", 64, "--own", 96, "--max-bytes", 20000]
+        nshards = 48
     p = vlib.harness(args, pkg="vhpy", timeout=3000)
     try:
         hstats = json.loads(p.stdout.strip().splitlines()[-1])
